@@ -735,6 +735,8 @@ class _Inliner(ast.NodeTransformer):
             if isinstance(st, ast.Match):
                 for c in st.cases:
                     c.body = self._block(c.body)
+                    if c.guard is not None:
+                        c.guard = self.visit(c.guard)  # expression helpers used in a guard (`if self._in_state(X)`)
             if isinstance(st, (ast.FunctionDef, ast.AsyncFunctionDef, ast.ClassDef)):
                 out.append(self.visit(st))
             else:
